@@ -197,6 +197,8 @@ type Frame struct {
 	args      []Val
 	loopEntry map[int]*loopSnap
 	inDefers  bool
+	autoCut   map[int]bool // loop headers cut without a contract (trivial invariant)
+	loopPC    map[int]int  // path-condition length at the first visit of an uncontracted loop header
 }
 
 type loopSnap struct {
@@ -255,6 +257,18 @@ func (st *State) clone() *State {
 		nf.loopEntry = map[int]*loopSnap{}
 		for k, v := range f.loopEntry {
 			nf.loopEntry[k] = v
+		}
+		if f.loopPC != nil {
+			nf.loopPC = map[int]int{}
+			for k, v := range f.loopPC {
+				nf.loopPC[k] = v
+			}
+		}
+		if f.autoCut != nil {
+			nf.autoCut = map[int]bool{}
+			for k, v := range f.autoCut {
+				nf.autoCut[k] = v
+			}
 		}
 		nf.defers = append([]*ssa.Defer{}, f.defers...)
 		nf.deferEnv = append([]map[ssa.Value]Val{}, f.deferEnv...)
